@@ -404,13 +404,29 @@ fn run_build(ctx: &mut Ctx, a: &[Arg]) {
             let c = c.l();
             b = apply(b, construct(c[0].n(), &c[1..]));
         }
-        b.build()
+        b
+    });
+    // the layout build() asks the allocator for: the last allocation of the structure's size
+    let r = r.and_then(|b| {
+        alloc_track::start();
+        let r = guard(move || b.build());
+        let (allocs, _) = alloc_track::stop();
+        r.map(|s| (s, allocs))
     });
     match r {
         Err(()) => ctx.ln("build", "PANIC"),
-        Ok(s) => {
+        Ok((s, allocs)) => {
             let st: &DynSizedStructure<BootInformationHeader> = &s;
-            ctx.ln("build", format!("VAL total={} sov={}", st.header().total_size(), size_of_val(st)));
+            let lay = allocs.iter().rev().find(|(sz, _)| *sz == size_of_val(st));
+            ctx.ln(
+                "build",
+                format!(
+                    "VAL total={} sov={} alloc={}",
+                    st.header().total_size(),
+                    size_of_val(st),
+                    lay.map(|(sz, al)| format!("{},{}", sz, al)).unwrap_or("none".into())
+                ),
+            );
             let g = own(st);
             if let Some(bi) = dom_mbi::load(ctx, &g) {
                 dom_mbi::walk(ctx, &g, &bi);
@@ -592,15 +608,31 @@ fn run_hbuild(ctx: &mut Ctx, a: &[Arg]) {
             let c = c.l();
             b = happly(b, hconstruct(c[0].n(), &c[1..]));
         }
-        b.build()
+        b
+    });
+    let r = r.and_then(|b| {
+        alloc_track::start();
+        let r = guard(move || b.build());
+        let (allocs, _) = alloc_track::stop();
+        r.map(|s| (s, allocs))
     });
     match r {
         Err(()) => ctx.ln("hbuild", "PANIC"),
-        Ok(s) => {
+        Ok((s, allocs)) => {
             let st: &DynSizedStructure<Multiboot2BasicHeader> = &s;
             let sov = size_of_val(st);
             let last8 = unsafe { core::slice::from_raw_parts(raw(st).add(sov - 8), 8) };
-            ctx.ln("hbuild", format!("VAL length={} sov={} last8={}", st.header().length(), sov, hexs(last8)));
+            let lay = allocs.iter().rev().find(|(sz, _)| *sz == sov);
+            ctx.ln(
+                "hbuild",
+                format!(
+                    "VAL length={} sov={} last8={} alloc={}",
+                    st.header().length(),
+                    sov,
+                    hexs(last8),
+                    lay.map(|(sz, al)| format!("{},{}", sz, al)).unwrap_or("none".into())
+                ),
+            );
             let g = own(st);
             if let Some(h) = dom_hdr::load(ctx, &g) {
                 dom_hdr::walk(ctx, &g, &h);
